@@ -274,6 +274,88 @@ fn shape_blocks(rep: &mut Report, rng: &mut Rng, n_rand: u64) {
     }
 }
 
+/// The transform of a block must not depend on which blocks were transformed before it in the same
+/// call: sequences drawn (with many repeats) from a small pool of blocks of all five variants.
+fn mixed_sequences(rep: &mut Report, rng: &mut Rng, n_seq: u64) {
+    let coords = || J::obj().set("property", "C10").set("kind", "mixed");
+    for _ in 0..n_seq {
+        // pool: Annex-A-like full blocks, first-row, first-column, DC and zero blocks
+        let mut pool: Vec<(DecodedDctBlock, [[i32; 8]; 8])> = vec![];
+        for k in 0..6 {
+            let mut c = [[0i32; 8]; 8];
+            match k % 5 {
+                0 => {
+                    let mut p = [[0f64; 8]; 8];
+                    for row in p.iter_mut() {
+                        for v in row.iter_mut() {
+                            *v = rng.range(-256, 255) as f64;
+                        }
+                    }
+                    let f = fdct(&p);
+                    for v in 0..8 {
+                        for u in 0..8 {
+                            c[v][u] = round_half_away(f[v][u]).clamp(-2048, 2047);
+                        }
+                    }
+                    pool.push((full_block(&c), c));
+                }
+                1 => {
+                    let mut line = [0f32; 8];
+                    for u in 0..8 {
+                        let v = if rng.chance(1, 3) { 0 } else { rng.range(-600, 600) as i32 };
+                        c[0][u] = v;
+                        line[u] = v as f32;
+                    }
+                    pool.push((DecodedDctBlock::Horiz(line), c));
+                }
+                2 => {
+                    let mut line = [0f32; 8];
+                    for v in 0..8 {
+                        let x = if rng.chance(1, 3) { 0 } else { rng.range(-600, 600) as i32 };
+                        c[v][0] = x;
+                        line[v] = x as f32;
+                    }
+                    pool.push((DecodedDctBlock::Vert(line), c));
+                }
+                3 => {
+                    let d = rng.range(-2048, 2047) as i32;
+                    c[0][0] = d;
+                    pool.push((DecodedDctBlock::Dc(d as f32), c));
+                }
+                _ => pool.push((DecodedDctBlock::Zero, c)),
+            }
+        }
+        let seq: Vec<usize> = (0..120).map(|_| rng.below(pool.len() as u64) as usize).collect();
+        let blocks: Vec<DecodedDctBlock> = seq.iter().map(|i| pool[*i].0).collect();
+        let got = match catch(|| real_residuals(&blocks)) {
+            Ok(g) => g,
+            Err(p) => {
+                rep.violation(format!("panic@{}", p.loc), format!("IDCT panicked on a mixed sequence: {}", p.msg), coords());
+                return;
+            }
+        };
+        let refs: Vec<[[i32; 8]; 8]> = pool.iter().map(|p| reference(&p.1)).collect();
+        for (pos, i) in seq.iter().enumerate() {
+            rep.evaluations += 1;
+            let r = &refs[*i];
+            let peak = (0..64).map(|k| (got[pos][k / 8][k % 8].clamp(-255, 255) - r[k / 8][k % 8].clamp(-255, 255)).abs()).max().unwrap();
+            if peak > 1 {
+                let kinds: Vec<&str> = seq[..=pos].iter().rev().take(4).map(|j| match pool[*j].0 {
+                    DecodedDctBlock::Zero => "Zero",
+                    DecodedDctBlock::Dc(_) => "Dc",
+                    DecodedDctBlock::Horiz(_) => "Horiz",
+                    DecodedDctBlock::Vert(_) => "Vert",
+                    DecodedDctBlock::Full(_) => "Full",
+                }).collect();
+                rep.violation("sequence-dependence", format!("block at position {} of one channel call (pool entry {}) is {} off its reference; the last blocks before it were (newest first) {:?}", pos, i, peak, kinds), coords());
+                return;
+            }
+            rep.count("mixed_sequence_blocks");
+        }
+        rep.distinct.insert(crate::util::fnv64(&seq.iter().map(|s| *s as u8).collect::<Vec<u8>>()) ^ rng.next());
+    }
+}
+
 pub fn run(ctx: &Ctx) -> (Report, String) {
     let seeds: Vec<i64> = if ctx.tier == Tier::Thorough { (1..=50).collect() } else { vec![1, 2, 3, 4, 5, 6] };
     let seeds: Vec<i64> = if ctx.scale_pct < 100 { seeds.into_iter().take(1).collect() } else { seeds };
@@ -295,6 +377,7 @@ pub fn run(ctx: &Ctx) -> (Report, String) {
             } else {
                 let mut rng = Rng::new(ctx.seed ^ 0xC10, i as u64);
                 shape_blocks(rep, &mut rng, n_rand / 8);
+                mixed_sequences(rep, &mut rng, ctx.n(200, 4000));
             }
         });
         rep
@@ -306,6 +389,7 @@ pub fn run(ctx: &Ctx) -> (Report, String) {
         rep.require("shape_blocks:Horiz", n_rand / 2);
         rep.require("shape_blocks:Vert", n_rand / 2);
         rep.require("zero_blocks_ok", 15);
+        rep.require("mixed_sequence_blocks", 100_000);
     }
     (rep, rule())
 }
